@@ -77,3 +77,15 @@ func verifCopy(n *treeNode) *VerifNode {
 	sort.Strings(v.AliasProtected)
 	return v
 }
+
+// VerifStep, when set, receives one event per step of the resolver's main
+// loop: "pop" when a node is taken from the stack and processed, "declare"
+// for every import of that node with what was done about it (reuse, error,
+// new, fatal), and "done".
+var VerifStep func(ev, name, version, requirement, alias, outcome string)
+
+func verifStep(ev, name, version, requirement, alias, outcome string) {
+	if VerifStep != nil {
+		VerifStep(ev, name, version, requirement, alias, outcome)
+	}
+}
